@@ -1,8 +1,9 @@
 CONSTANTS
   NEnvL = 2
   NCus = 1
-  MaxH = 3
-  MaxSteps = 4
+  MaxH = 2
+  MaxSteps = 3
+  Fault = "none"
 INIT LInit
 NEXT LNext
 INVARIANT Truthful
